@@ -144,8 +144,8 @@ def main():
                   "nothing to rebuild. Exit 0 = held on everything explored (KNOWN-FINDING lines for entries of known_findings.json), exit 1 = "
                   "VIOLATION lines with replay files under replays/<id>/, exit 2 = harness error. Every run writes evidence/<id>.json and the "
                   "per-tier ledger runs/<id>.<tier>.json. VERIF_NPROC limits workers (default 16); VERIF_SEED only rotates which witnesses are kept "
-                  "as samples. On an idle 16-core machine the quick tier of all 29 checks takes about 11 minutes in total (largest: C11 ~95 s, C13 ~55 s), "
-                  "the thorough tier about 3.5 hours in total (largest: C01, C02, C07, C11 at 13-20 min each). "
+                  "as samples. On an idle 16-core machine the quick tier of all 29 checks takes about 10 minutes in total (largest: C11 ~90 s, C13 ~50 s), "
+                  "the thorough tier about 2.3 hours in total (largest: C11 ~14 min, C24 ~13 min, C02 ~10 min, C13, C25, C01 ~9 min each). "
                   "Repaired defects are `fix:` commits in /repo listed under `fixed` in known_findings.json; " + str(len([d for d in os.listdir(os.path.join(ROOT, "seeded")) if d[0] == "C"])) + " confirmed seeded property-breaking "
                   "changes with their detection logs are under seeded/ (DESIGN.md section 9.4)."),
     }
